@@ -126,4 +126,14 @@ def partitionMatch (received loc : List Name) : Bool :=
   received == loc || anyCommonName received loc || anyPatternMatch received loc || anyPatternMatch loc received
     || defaultMatch received loc
 
+/-- the test as written in process_discovered_readers (the WRITER's participant): received = the partition the discovered
+    reader announced (its subscriber's), local = the publisher's -/
+def writerSideMatch (pub sub : List Name) : Bool :=
+  sub == pub || anyCommonName sub pub || anyPatternMatch sub pub || anyPatternMatch pub sub || defaultMatch sub pub
+
+/-- the test as written in process_discovered_writers (the READER's participant): received = the partition the discovered
+    writer announced (its publisher's), local = the subscriber's -/
+def readerSideMatch (pub sub : List Name) : Bool :=
+  pub == sub || anyCommonName pub sub || anyPatternMatch pub sub || anyPatternMatch sub pub || defaultMatch pub sub
+
 end DustVerif.Partition
